@@ -415,7 +415,8 @@ def _slice_arithmetic(ctx: Ctx, cbs, gpb):
         try:
             term = ex.cond(expr) if is_c else ex.term(expr)
         except MM.Unknown as e:
-            raise AnalysisError(f"C09: {key} of chunk_by_slices is not a min/max-linear term: {e}")
+            col.undecided(f"C09: {key} of chunk_by_slices is not a min/max-linear term: {e}")
+            continue
         env, g, w, n = MM.counterexample(term, want, grid(with_t))
         shown = MM.showc(term) if is_c else MM.show(term)
         col.ob("G12", "S6", f"{rel}::chunk_by_slices::slice-arithmetic[{key}]", env is None,
